@@ -254,6 +254,25 @@ def _rec_calibrate(self, name, args, out):
          'y': [int(v) for v in y], 'd': d.tolist(), 'thr': float(self.threshold_)})
 
 
+def _rec_fit_closed(self, name, args, out):
+  """fits of the closed-form learners: Covariance.fit(X) and RCA.fit(X, chunks) (also when reached from RCA_Supervised)"""
+  if not type(self).__module__.startswith('metric_learn') or not hasattr(self, 'components_'):
+    return
+  cls = type(self).__name__
+  X = np.asarray(args[0]) if args else None
+  if X is None or X.ndim != 2 or X.dtype.kind not in 'fiu' or X.shape[0] > 200 or X.shape[1] > 6 or not np.isfinite(X.astype(float)).all():
+    return
+  L = np.asarray(self.components_)
+  if L.dtype.kind != 'f' or L.ndim != 2:
+    return
+  if cls == 'Covariance':
+    _emit({'ev': 'CallFitCov', 'method': 'fit', 'cls': cls, 'X': _arr(X), 'L': _arr(L)})
+  elif cls in ('RCA', 'RCA_Supervised') and len(args) >= 2:
+    ch = np.asarray(args[1])
+    if ch.ndim == 1 and len(ch) == len(X) and ch.dtype.kind in 'iu':
+      _emit({'ev': 'CallFitRca', 'method': 'fit', 'cls': cls, 'X': _arr(X), 'chunks': [int(v) for v in ch], 'L': _arr(L)})
+
+
 def _wrap_constraints():
   """Constraints.positive_negative_pairs / chunks as used by the tests and by every *_Supervised fit"""
   from metric_learn.constraints import Constraints
@@ -336,7 +355,7 @@ def _install():
       for k in cls.__mro__:
         if k.__module__.startswith('metric_learn') and 'fit' in k.__dict__ and k not in seen:
           seen.add(k)
-          _wrap(k, 'fit', None)
+          _wrap(k, 'fit', _rec_fit_closed if k.__name__ in ('Covariance', 'RCA') else None)
 
 
 if _OUT is not None:
